@@ -92,6 +92,8 @@ static void *body_b(void *arg)
   return NULL;
 }
 
+static int run_b_close_faults;
+
 static void run_b(int nthreads, int bound, int real_exec)
 {
   memset(&vk_cfg, 0, sizeof vk_cfg);
@@ -99,10 +101,19 @@ static void run_b(int nthreads, int bound, int real_exec)
   vk_cfg.sched_bound = bound;
   vk_cfg.vlimit = 40;
   vk_cfg.real_exec = real_exec;
-  snprintf(key, sizeof key, "h_c20|independent-children|threads=%d|preemptions<=%d|%s", nthreads, bound, real_exec ? "real" : "emul");
+  if (run_b_close_faults) {
+    /* one close() of the library is interrupted (the descriptor is gone all the same, as on Linux): what a thread does about it must not
+     * touch a number the other thread has been handed in the meantime */
+    vk_cfg.faults_on = 1;
+    vk_cfg.fault_bound = 1;
+    vk_cfg.fault_calls = 1ull << C_CLOSE;
+    vk_cfg.total_bound = 2;
+  }
+  snprintf(key, sizeof key, "h_c20|independent-children|threads=%d|preemptions<=%d|%s%s", nthreads, bound, real_exec ? "real" : "emul", run_b_close_faults ? "|one-interrupted-close" : "");
   hx_desc("%s", key);
-  snprintf(key, sizeof key, "h_c20|independent-children");
+  snprintf(key, sizeof key, "h_c20|independent-children%s", run_b_close_faults ? "|one-interrupted-close" : "");
   hx_begin();
+  vk_faults_armed = run_b_close_faults;
   static struct tb t[3];
   memset(t, 0, sizeof t);
   int idx[3];
@@ -245,6 +256,65 @@ static void run_e(int bound)
     vk_violation("C05", "ledgers-after-threads", key, "%d descriptor(s), %d block(s) left", vk_fd_ledger_open_count(), vk_heap_live_count());
 }
 
+/* ---------------------------------------------------------------- (G) short life cycles from two threads, one close() of the library interrupted */
+static void *body_g(void *arg)
+{
+  struct tb *t = arg;
+  t->p = reproc_new();
+  reproc_options o;
+  memset(&o, 0, sizeof o);
+  vk_script("");
+  vk_api_seq = 5000 + t->id;
+  int r = reproc_start(t->p, hx_helper_argv(), o);
+  if (r < 0) {
+    /* an interrupted close inside start may surface as its error: then nothing must be left of the attempt */
+    reproc_destroy(t->p);
+    vk_api_seq = 0;
+    return NULL;
+  }
+  reproc_close(t->p, REPROC_STREAM_IN);
+  reproc_close(t->p, REPROC_STREAM_OUT);
+  reproc_kill(t->p);
+  t->status = reproc_wait(t->p, REPROC_INFINITE);
+  if (t->status != 128 + 9) vk_violation("C20", "own-status", key, "thread %d: wait returned %s after kill", t->id, hx_errname(t->status));
+  else { t->ok = 1; vk_hit(CL_B_OK); }
+  reproc_destroy(t->p);
+  vk_api_seq = 0;
+  return NULL;
+}
+
+static void run_g(void)
+{
+  memset(&vk_cfg, 0, sizeof vk_cfg);
+  vk_cfg.sched_on = 1;
+  vk_cfg.sched_bound = 1;
+  vk_cfg.vlimit = 40;
+  vk_cfg.hello_lite = 1;
+  /* one close() of the library is interrupted (the descriptor is gone all the same, as on Linux): what a thread does about it must not touch a
+   * number the other thread has been handed in the meantime */
+  vk_cfg.faults_on = 1;
+  vk_cfg.fault_bound = 1;
+  vk_cfg.fault_calls = 1ull << C_CLOSE;
+  vk_cfg.total_bound = 2;
+  snprintf(key, sizeof key, "h_c20|short-life-cycles|threads=2|preemptions<=1|one-interrupted-close");
+  hx_desc("%s", key);
+  snprintf(key, sizeof key, "h_c20|short-life-cycles|one-interrupted-close");
+  hx_begin();
+  vk_faults_armed = 1;
+  static struct tb t[2];
+  memset(t, 0, sizeof t);
+  int idx[2];
+  for (int i = 0; i < 2; i++) { t[i].id = i + 1; idx[i] = vk_thread_create(body_g, &t[i]); }
+  for (int i = 0; i < 2; i++) vk_thread_join(idx[i]);
+  vk_faults_armed = 0;
+  int used = S->used[K_SCHED];
+  vk_hit(used == 0 ? CL_PREEMPT0 : used == 1 ? CL_PREEMPT1 : CL_PREEMPT2);
+  vk_obs("short cycles done: %d %d", t[0].ok, t[1].ok);
+  if (vk_double_closes || vk_foreign_closes)
+    vk_violation("C20", "cross-talk-close", key, "the library closed %d descriptor(s) twice and %d that were not its own (a number freed by an interrupted close can be another thread's new descriptor)",
+                 vk_double_closes, vk_foreign_closes);
+}
+
 /* ---------------------------------------------------------------- (A) reader and writer on one child */
 static reproc_t *PA;
 static struct vk_child *CA;
@@ -358,7 +428,7 @@ static void run_c(void)
   vk_thread_join(b);
 }
 
-static long c20_n(int tier) { return tier ? 7 : 6; }
+static long c20_n(int tier) { return tier ? 8 : 7; }
 static void c20_run(int tier, long cfg)
 {
   switch (cfg) {
@@ -368,7 +438,8 @@ static void c20_run(int tier, long cfg)
     case 3: run_b(2, 1, 1); break;
     case 4: run_d(tier ? 2 : 1); break;
     case 5: run_e(tier ? 2 : 1); break;
-    case 6: run_b(3, 0, 0); break; /* three threads: every free alternative (blocked calls, joins, exits), no preemption */
+    case 6: run_g(); break;
+    case 7: run_b(3, 0, 0); break; /* three threads: every free alternative (blocked calls, joins, exits), no preemption */
   }
 }
 
